@@ -62,8 +62,8 @@ PROPS = {
         level_text="Proved for every model state, API call and script: if the watch-only flag answers true whenever consulted (it is consulted only while the node is in the validator list) nothing is broadcast, signed or given pre-commit data.",
         level_note="proved on the whole model (the 'others progress as with a silent validator' clause follows from emitting nothing)"),
     "C14": dict(family="node", level="other", title="Clock-shift invariance",
-        level_text="No Coq theorem. Decided by executing every generated history twice on the real library with clocks differing by constant offsets (and at different wall-clock times) and comparing payloads and timer durations; model tied by correspondence (the model reads time only through the Now callback).",
-        level_note="differential execution on the real code; no theorem"),
+        level_text="Node-level arithmetic facts proved (truncation commutes with the shift, elapsed times do not see it, copied readings shift; the proposal timestamp is the truncated reading of one Now callback); no run-level relational theorem. The property is decided by executing every generated history twice on the real library with clocks differing by constant offsets (and at different wall-clock times) and comparing payloads and timer durations; model tied by correspondence (the model reads time only through the Now callback).",
+        level_note="differential execution on the real code under shifted clocks; only node-level equivariance lemmas are proved"),
     "C15": dict(family="node", level="proof", title="Honest proposals are well formed",
         level_text="Proved: every PrepareRequest broadcast in any reachable history carries the context's timestamp, nonce and transaction list for the node's epoch, with timestamp >= previous + increment (strictly greater without uint64 overflow); Fill takes exactly the pool's transactions, the truncated clock when larger and the nonce; the own header is built from the same context values.",
         level_note="proved on the model in three theorems; the link Fill->broadcast within one call is by the model's sendPrepareRequest"),
